@@ -178,6 +178,12 @@ pub fn apply(e: &TieredEngine, op: &str) -> String {
             Ok(r) => r.iter().map(|x| x.doc_id.to_string()).collect::<Vec<_>>().join(","),
             Err(_) => "err".into(),
         },
+        // a query with components inside (-1, 1): the query cache's 16-bit quantised hash tells kn:1 from kn:2, so the
+        // second one is answered by the similarity scan (find_similar_query), not by the exact-hash lookup
+        "kn" => match e.knn_search(&[id(1) as f32 / 16.0, 0.5], 2) {
+            Ok(r) => r.iter().map(|x| x.doc_id.to_string()).collect::<Vec<_>>().join(","),
+            Err(_) => "err".into(),
+        },
         "flush" => match e.flush_hot_tier(true) {
             Ok(n) => n.to_string(),
             Err(_) => "err".into(),
